@@ -136,6 +136,23 @@ var ipv4Tails = []string{"1.2.3.4", "0.0.0.0", "255.255.255.255", "192.168.0.1",
 
 // IPv6Text returns the text between brackets (valid or not).
 func IPv6Text(r *rand.Rand) string {
+	if r.IntN(20) == 0 {
+		// the longest legal spellings: every piece with four digits (zero-padded), with and without
+		// a dotted tail of three-digit octets (39 and 45 characters) - and one piece more or less
+		k := Pick(r, []int{8, 8, 6, 6, 7, 5, 9})
+		pieces := make([]string, k)
+		for i := range pieces {
+			pieces[i] = fmt.Sprintf("%04x", r.IntN(0x10000))
+			if r.IntN(2) == 0 {
+				pieces[i] = strings.ToUpper(pieces[i])
+			}
+		}
+		s := strings.Join(pieces, ":")
+		if k <= 7 && r.IntN(3) != 0 {
+			s += fmt.Sprintf(":%d.%d.%d.%d", 100+r.IntN(156), 100+r.IntN(156), 100+r.IntN(156), 100+r.IntN(156))
+		}
+		return s
+	}
 	n := r.IntN(10)
 	pieces := make([]string, n)
 	for i := range pieces {
@@ -179,7 +196,7 @@ func IPv6Text(r *rand.Rand) string {
 		}
 	}
 	if r.IntN(15) == 0 {
-		s += Pick(r, []string{"%25eth0", "%eth0", " ", "/64", "]", "[", ":", ".", "x"})
+		s += Pick(r, []string{"%25eth0", "%eth0", "%25", "%", "%251", "%2500", "%25%25", " ", "/64", "]", "[", ":", ".", "x"})
 	}
 	if r.IntN(25) == 0 {
 		s = Confuse(r, s)
@@ -379,7 +396,8 @@ func Path(r *rand.Rand) string {
 	return sb.String()
 }
 
-var queryBits = []string{"a", "b", "a=b", "a=b&c=d", "&", "=", "&&", "a=", "=b", "a==b", "+", "a+b", "%2B", "%26", "%3D", "%", "%4", "%zz", "'", "\"", "<", ">", "`", "{", "}", "|", "^", " ", "#", "?", "/", "\\", "é", "🌈", "\u0000", "\u007f", ";", "a;b", "[]", "a[]=1", "%41", "%C3%A9", "%ff"}
+var queryBits = []string{"a", "b", "a=b", "a=b&c=d", "&", "=", "&&", "a=", "=b", "a==b", "+", "a+b", "%2B", "%26", "%3D", "%", "%4", "%zz", "'", "\"", "<", ">", "`", "{", "}", "|", "^", " ", "#", "?", "/", "\\", "é", "🌈", "\u0000", "\u007f", ";", "a;b", "[]", "a[]=1", "%41", "%C3%A9", "%ff",
+	":~:", ":~:text=a", "a:~:text=b,c", "!", "#!", ";jsessionid=1", "%23", "%23%23", "##", "%2523", "%27", "%2527", "~", "%7E", "%7e", "%EF%BB%BF", "\ufeff", "%E2%80%8B", "..", "/../", "@", "://", "%25", "%2525"}
 
 // QueryOrFragment returns text for a query or fragment (without the delimiter).
 func QueryOrFragment(r *rand.Rand) string {
